@@ -52,7 +52,7 @@ Wr(w) == IF w.kind = "d" THEN [kind |-> "d", at |-> w.at, c |-> [i \in 1 .. Len(
 
 TInit == /\ l = 1 /\ dur = EmptyImage /\ pend = <<>> /\ gens = <<>>
          /\ hist = <<>> /\ done = <<>> /\ ack = <<>> /\ fl = <<>> /\ now = 0
-         /\ conf = [fmt |-> 3, ttl |-> FALSE, nk |-> 0, cc |-> TRUE]
+         /\ conf = [fmt |-> 3, ttl |-> FALSE, nk |-> 0, cc |-> 1]
          /\ real = NoReal /\ snap = NoSnap /\ dropping = FALSE /\ dropFailed = FALSE
          /\ cflags = {} /\ live0 = {}
 
@@ -75,10 +75,10 @@ ImgOf(j) == [blk |-> [b \in Blocks |-> Cont(j.blk[b - DS + 1])],
              m |-> [c \in 0 .. 1 |-> MV(j.m[c + 1])]]
 TImage == /\ Ev.e = "image"
           /\ dur' = ImgOf(Ev.img) /\ pend' = <<>>
-          /\ LET r == Recover(dur', gens, Keys, now, conf.ttl, FALSE) IN
+          /\ \E r \in {Recover(ImgOf(Ev.img), gens, Keys, now, conf.ttl, FALSE)} :
              /\ hist' = [k \in Keys |-> <<IF r.ok THEN r.win[k] ELSE 0>>]
              /\ live0' = IF r.ok THEN UNION {r.winAt[k].at .. (r.winAt[k].at + gens[r.win[k]].n - 1)
-                                               : k \in {kk \in Keys : r.win[kk] # 0}}
+                                               : k \in {kk \in Keys : r.kv[kk] # 0}}
                           ELSE {}
           /\ done' = [k \in Keys |-> 1] /\ ack' = [k \in Keys |-> 1]
           /\ real' = NoReal /\ snap' = NoSnap
@@ -187,16 +187,26 @@ InWindow(k, g) == \E i \in ack[k] .. Len(hist[k]) : hist[k][i] = g
 Exposable(k, g, t) == InWindow(k, g) \/ (g = 0 /\ \E i \in ack[k] .. Len(hist[k]) : Expd(hist[k][i], t))
 
 \* aspects of CrashSafe violated by some crash image of the given state
+\* (bounded quantification over a singleton set binds the recovery result to a VALUE: TLC then
+\*  evaluates Recover once per image instead of once per reference)
+AspectsOf(r, hs, ak, gs, t, cf) ==
+  IF ~r.ok THEN {"opens"}
+  ELSE (IF \E k \in 1 .. cf.nk :
+              ~(\/ \E i \in ak[k] .. Len(hs[k]) : hs[k][i] = r.win[k]
+                \* the state of the window that recovery would pick has expired and was retired
+                \/ (r.win[k] = 0 /\ \E i \in ak[k] .. Len(hs[k]) :
+                       hs[k][i] # 0 /\ cf.ttl /\ gs[hs[k][i]].exp # 0 /\ t > gs[hs[k][i]].exp))
+        THEN {"window"} ELSE {})
+       \cup (IF r.ghosts # {} THEN {"ghost"} ELSE {})
 FlagsOf(d, p, gs, hs, ak, t, cf) ==
   IF cf.nk = 0 THEN {} ELSE
-  UNION {LET r == Recover(ApplyUnits(d, p, S, 1), gs, 1 .. cf.nk, t, cf.ttl, FALSE) IN
-         IF ~r.ok THEN {"opens"}
-         ELSE (IF \E k \in 1 .. cf.nk : ~(\E i \in ak[k] .. Len(hs[k]) : hs[k][i] = r.win[k])
-               THEN {"window"} ELSE {})
-              \cup (IF r.ghosts # {} THEN {"ghost"} ELSE {})
+  UNION {UNION {AspectsOf(r, hs, ak, gs, t, cf)
+                  : r \in {Recover(ApplyUnits(d, p, S, 1), gs, 1 .. cf.nk, t, cf.ttl, FALSE)}}
          : S \in SubsetsOf(p)}
 
-Changes == IF conf'.cc THEN Ev.e \in {"init", "image", "call", "tick", "w", "fsync", "flush_end", "drop_end", "settled"}
+Changes == IF conf'.cc = 3 THEN FALSE                             \* only what the real recovery returned
+           ELSE IF conf'.cc = 2 THEN Ev.e \in {"image", "fsync"}      \* durable states only
+           ELSE IF conf'.cc = 1 THEN Ev.e \in {"init", "image", "call", "tick", "w", "fsync", "flush_end", "drop_end", "settled"}
            ELSE Ev.e \in {"flush_end", "drop_end", "settled"}
 TNext == /\ l <= Len(Rec) /\ l' = l + 1
          /\ (TStart \/ TGen \/ TCall \/ TRet \/ TTick \/ TWrite \/ TFsync \/ TFlushBegin \/ TFlushEnd
@@ -230,7 +240,7 @@ RealPartition ==
 \* conformance of recovery.rs with the abstract reader (a deviation, not a verdict)
 RecConforms ==
   real.on =>
-    LET r == Recover(ApplyUnits(dur, pend, real.units, 1), gens, Keys, real.now, conf.ttl, FALSE) IN
+    \A r \in {Recover(ApplyUnits(dur, pend, real.units, 1), gens, Keys, real.now, conf.ttl, FALSE)} :
     /\ r.ok = real.ok
     /\ r.ok => \A k \in Keys : r.kv[k] = real.kv[k]
     /\ ~r.ok => r.err = real.err
@@ -240,7 +250,7 @@ Latest(k) == hist[k][Len(hist[k])]
 \* C10: after flush() the independent reader finds exactly the live keys, a clear journal, and
 \* metadata counters equal to the live totals
 AtAckJournalClear == snap.on => ~JournalPick(dur.j).active /\ pend = <<>>
-AtAckLayout == snap.on => LET r == Rv(dur) IN r.ok /\ \A k \in Keys : r.win[k] = Latest(k)
+AtAckLayout == snap.on => \A r \in {Rv(dur)} : r.ok /\ \A k \in Keys : r.win[k] = Latest(k)
 LiveBlocks == LET S == {i \in 1 .. Len(snap.recs) : TRUE} IN
               IF S = {} THEN 0 ELSE
               LET RECURSIVE Sum(_)
